@@ -125,11 +125,11 @@ namespace ratio
             {
                 const auto rt = m.get_return_type().value();
                 if (rt == &scp.get_core().get_type(BOOL_KEYWORD))
-                    return bool_expr(static_cast<bool_item *>(m.invoke(ctx, exprs).value()));
+                    return bool_expr(static_cast<bool_item *>(&*m.invoke(ctx, exprs).value()));
                 else if (rt == &scp.get_core().get_type(INT_KEYWORD) || rt == &scp.get_core().get_type(REAL_KEYWORD) || rt == &scp.get_core().get_type(TP_KEYWORD))
-                    return arith_expr(static_cast<arith_item *>(m.invoke(ctx, exprs).value()));
+                    return arith_expr(static_cast<arith_item *>(&*m.invoke(ctx, exprs).value()));
                 else
-                    return expr(m.invoke(ctx, exprs).value());
+                    return m.invoke(ctx, exprs).value();
             }
             else
                 return scp.get_core().new_bool(true);
